@@ -144,6 +144,7 @@ class SymEnv:
         self.spec_temps = {}
         self.replaying = None
         self.second_cmds = []
+        self.lenient = False
 
     # ---- implementation side
     def install(self, it, source, pre_out=None, pre_temp=None, extra_files=()):
@@ -197,7 +198,14 @@ class SymEnv:
         i = self.spec_cmd_i
         self.spec_cmd_i += 1
         if i >= len(self.cmd_results):
-            raise SpecMismatch('spec runs a command the implementation did not run')
+            if not self.lenient:
+                raise SpecMismatch('spec runs a command the implementation did not run')
+            # the implementation stopped earlier (e.g. verify mismatch): the hypothetical command result is unconstrained
+            code = 1 if (self.fail_cmds and ctx.choose(2, 'sexit%d' % i) == 1) else 0
+            n = ctx.choose(self.out_len + 1, 'soutlen%d' % i) if self.out_len > 0 else 0
+            out = ctx.fresh_bytes('scmd%d' % i, n, self.out_alpha)
+            self.cmd_results.append(({'args': [StrV(tuple(cmd))]}, code, out))
+            return None if code != 0 else out
         rec, code, out = self.cmd_results[i]
         got = rec['args'][-1].b if rec['args'] else ()
         if len(got) != len(cmd) or not specpp.beq(ctx, tuple(got), tuple(cmd)):
